@@ -486,6 +486,9 @@ func (s *Server) Clear() {
 	// we do not drain InitDoneChannel, because Init is only done once during rapid lifetime
 
 	drainChannel(s.InvokeDoneChan)
+	// an init error reported by the runtime of the generation being torn down
+	// says nothing about the next one
+	s.setCachedInitErrorResponse(nil)
 	s.Release()
 }
 
